@@ -86,6 +86,12 @@ class C01(Property):
             out.count("delay_resolved_cycles_completed")
         if spec["meta"]["n_pull"]:
             out.count("compositions_with_pull_based_components")
+        if any(a[0] == "dfix" and a[1] < 0 for ln in spec["links"] for a in ln["chain"]):
+            out.count("compositions_with_look_ahead_links")
+        if getattr(rep.built.ctx, "refused_publications", 0):
+            out.count("refused_publications_in_runs", rep.built.ctx.refused_publications)
+        if rep.built.ctx.errors:
+            out.viol("harness_observation", str(rep.built.ctx.errors[:2]), spec=spec)
         if spec["meta"].get("n_trunks"):
             out.count("compositions_with_fanout_below_adapter")
         if any(c.get("publish_every") for c in spec["comps"]):
@@ -96,7 +102,8 @@ class C01(Property):
 
     def coverage_gaps(self, counters, tier):
         need = ["updates_checked", "pulls_served", "delay_upstream_of_push_based", "delay_downstream_of_push_based", "links_with_several_delays",
-                "delay_resolved_cycles_completed", "compositions_with_pull_based_components", "compositions_with_shipped_components", "compositions_with_sparse_publishers", "compositions_with_fanout_below_adapter"] + [
+                "delay_resolved_cycles_completed", "compositions_with_pull_based_components", "compositions_with_shipped_components", "compositions_with_sparse_publishers", "compositions_with_fanout_below_adapter", "compositions_with_look_ahead_links",
+                "refused_publications_in_runs"] + [
                     "adapter_" + a for a in ("scale", "probe", "lin", "next", "prev", "step", "avg", "sum", "dfix", "dpull", "dpush")]
         gaps = [f"{k} never observed" for k in need if not counters.get(k)]
         if counters.get("aborted_runs", 0) > 0.05 * max(1, counters.get("compositions", 0)):
